@@ -392,26 +392,45 @@ def r5_close(report, repo):
                                                                  'present')
     if dotted(expr) == st + '.remote_id':
       return 'remote'
+    # test-and-release in one step: `<map>.pop(<id>, None) is not None`
+    if isinstance(expr, ast.Compare) and len(expr.ops) == 1 and isinstance(
+        expr.ops[0], (ast.Is, ast.IsNot)) and isinstance(
+            expr.comparators[0], ast.Constant) and \
+        expr.comparators[0].value is None and _is_pop(
+            expr.left, cfgm.Path(steps, None)):
+      return 'present' if isinstance(expr.ops[0], ast.IsNot) else ('not',
+                                                                    'present')
     return None
+
+  def _is_pop(e, path):
+    return isinstance(e, ast.Call) and last_attr(e) == 'pop' and \
+        dotted(e.func.value) == 'self._stream_transport_map' and \
+        len(e.args) == 2 and isinstance(e.args[1], ast.Constant) and \
+        e.args[1].value is None and cfgm.path_dotted(path, e.args[0]) == \
+        st + '.local_id'
 
   LOCK = 'self._stream_transport_map_lock'
 
   def spec(v, p):
     if p.end != 'exit':
       return None
-    dels = [n for n, _ in p.steps if n.kind == 'stmt' and isinstance(
-        n.ast, ast.Delete)]
+    dels = [n for n, _ in p.steps if n.kind == 'stmt' and (isinstance(
+        n.ast, ast.Delete) or any(_is_pop(x, p) for x in n.subnodes()))]
     clse = [c for c in p.calls(attr='AdbMessage')
             if core.const_str(core.get_kw(c, 'command', 0)) == 'CLSE']
     r = p.last_return().value
-    rv = r.value if isinstance(r, ast.Constant) else None
+    rv = r.value if isinstance(r, ast.Constant) else lib.eval_expr(
+        r, v, classify, p, before_index=len(p.steps) - 1)
+    if dels and not v['present'] and all(
+        not isinstance(n.ast, ast.Delete) for n in dels):
+      dels = []  # pop(id, None) of an absent id releases nothing
     if v['present']:
       if len(dels) != 1:
         return 'present-row: the id must be released exactly once'
       if (len(clse) == 1) != v['remote']:
         return ('present-row: CLSE sent %d times with remote id known=%s' %
                 (len(clse), v['remote']))
-      if clse and [dotted(a) for a in clse[0].args[1:3]] != [
+      if clse and [cfgm.path_dotted(p, a) for a in clse[0].args[1:3]] != [
           st + '.local_id', st + '.remote_id']:
         return 'present-row: CLSE does not carry (local id, remote id)'
       if rv is not True:
@@ -430,6 +449,12 @@ def r5_close(report, repo):
   g = lib.cfg(f)
   tests = [n for n in g.nodes if n.kind == 'test' and classify(n.ast, [])
            in ('present', ('not', 'present'))]
+  if not tests:
+    # the pop() form: the statement that tests and releases
+    tests = [n for n in g.nodes if n.kind == 'stmt' and any(
+        isinstance(x, ast.Call) and last_attr(x) == 'pop' and
+        dotted(x.func.value) == 'self._stream_transport_map'
+        for x in n.subnodes())]
   report.check(bool(tests) and all(LOCK in core.held_withs(t.ast)
                                    for t in tests), rule, f.qualname,
                'test-in-lock', f.node, 'membership tested under the map lock')
